@@ -34,3 +34,33 @@ func init() {
 			Old: "\t\tif _, err := payload.Postings.Validate(); err != nil {\n\t\t\tsharedapi.BadRequest(w, ErrValidation, err)\n\t\t\treturn\n\t\t}\n\t\ttxData := ledger.TransactionData{", New: "\t\tif len(payload.Postings) > 1 {\n\t\t\tif _, err := payload.Postings.Validate(); err != nil {\n\t\t\t\tsharedapi.BadRequest(w, ErrValidation, err)\n\t\t\t\treturn\n\t\t\t}\n\t\t}\n\t\ttxData := ledger.TransactionData{", Expect: "R09d:"},
 	)
 }
+
+func init() {
+	const nums = "internal/numscript.go"
+	// the performance refactoring of seed C09-1 (names from len(map) and strconv, keys memoised in a slice,
+	// concatenation instead of Sprintf), with a separator in the key: behaviour preserving
+	refactor := func(key string) []Edit {
+		return []Edit{
+			{File: nums, Old: "import (\n\t\"fmt\"\n\t\"sort\"\n", New: "import (\n\t\"fmt\"\n\t\"sort\"\n\t\"strconv\"\n"},
+			{File: nums, Old: "\tmonetaryToVars := map[string]variable{}\n\taccountsToVars := map[string]variable{}\n\ti := 0\n\tj := 0\n\tfor _, p := range txData.Postings {\n",
+				New: "\tmonetaryToVars := make(map[string]variable, len(txData.Postings))\n\taccountsToVars := make(map[string]variable, 2*len(txData.Postings))\n\tmonetaryKeys := make([]string, len(txData.Postings))\n\tfor n, p := range txData.Postings {\n"},
+			{File: nums, Old: "\t\t\t\t\tname:  fmt.Sprintf(\"va%d\", i),\n\t\t\t\t\tvalue: p.Source,\n\t\t\t\t}\n\t\t\t\ti++\n", New: "\t\t\t\t\tname:  \"va\" + strconv.Itoa(len(accountsToVars)),\n\t\t\t\t\tvalue: p.Source,\n\t\t\t\t}\n"},
+			{File: nums, Old: "\t\t\t\t\tname:  fmt.Sprintf(\"va%d\", i),\n\t\t\t\t\tvalue: p.Destination,\n\t\t\t\t}\n\t\t\t\ti++\n", New: "\t\t\t\t\tname:  \"va\" + strconv.Itoa(len(accountsToVars)),\n\t\t\t\t\tvalue: p.Destination,\n\t\t\t\t}\n"},
+			{File: nums, Old: "\t\tmon := fmt.Sprintf(\"[%s %s]\", p.Amount.String(), p.Asset)\n\t\tif _, ok := monetaryToVars[mon]; !ok {\n\t\t\tmonetaryToVars[mon] = variable{\n\t\t\t\tname:  fmt.Sprintf(\"vm%d\", j),\n\t\t\t\tvalue: fmt.Sprintf(\"%s %s\", p.Asset, p.Amount.String()),\n\t\t\t}\n\t\t\tj++\n\t\t}\n",
+				New: "\t\tamount := p.Amount.String()\n\t\tmonetaryKeys[n] = " + key + "\n\t\tif _, ok := monetaryToVars[monetaryKeys[n]]; !ok {\n\t\t\tmonetaryToVars[monetaryKeys[n]] = variable{\n\t\t\t\tname:  \"vm\" + strconv.Itoa(len(monetaryToVars)),\n\t\t\t\tvalue: p.Asset + \" \" + amount,\n\t\t\t}\n\t\t}\n"},
+			{File: nums, Old: "\tfor _, p := range txData.Postings {\n\t\tm := fmt.Sprintf(\"[%s %s]\", p.Amount.String(), p.Asset)\n\t\tmon, ok := monetaryToVars[m]\n\t\tif !ok {\n\t\t\tpanic(fmt.Sprintf(\"monetary %s not found\", m))\n\t\t}\n\t\tsb.WriteString(fmt.Sprintf(\"send $%s (\\n\", mon.name))\n",
+				New: "\tfor n, p := range txData.Postings {\n\t\tmon, ok := monetaryToVars[monetaryKeys[n]]\n\t\tif !ok {\n\t\t\tpanic(fmt.Sprintf(\"monetary %s not found\", monetaryKeys[n]))\n\t\t}\n\t\tsb.WriteString(\"send $\" + mon.name + \" (\\n\")\n"},
+		}
+	}
+	good := refactor("p.Asset + \" \" + amount")
+	bad := refactor("p.Asset + amount")
+	addMutants(
+		Mutant{Property: "C09", Name: "benign-translation-refactored-for-speed", File: good[0].File, Old: good[0].Old, New: good[0].New, Edits: good[1:], Expect: "none", Benign: true},
+		Mutant{Property: "C09", Name: "refactored-with-colliding-key", File: bad[0].File, Old: bad[0].Old, New: bad[0].New, Edits: bad[1:], Expect: "R09h:"},
+		Mutant{Property: "C09", Name: "account-counter-not-advanced", File: nums, Old: "\t\t\t\t\tvalue: p.Source,\n\t\t\t\t}\n\t\t\t\ti++\n", New: "\t\t\t\t\tvalue: p.Source,\n\t\t\t\t}\n", Expect: "R09a:TxToScriptData:variable-name-is-unique"},
+		Mutant{Property: "C09", Name: "monetary-names-share-the-account-prefix", File: nums, Old: "name:  fmt.Sprintf(\"vm%d\", j),", New: "name:  fmt.Sprintf(\"va%d\", j),", Expect: "R09a:TxToScriptData:variable-name-is-unique"},
+		Mutant{Property: "C09", Name: "monetary-key-without-separator", File: nums, Old: "\t\tmon := fmt.Sprintf(\"[%s %s]\", p.Amount.String(), p.Asset)\n", New: "\t\tmon := fmt.Sprintf(\"[%s%s]\", p.Asset, p.Amount.String())\n",
+			Edits: []Edit{{File: nums, Old: "\t\tm := fmt.Sprintf(\"[%s %s]\", p.Amount.String(), p.Asset)\n", New: "\t\tm := fmt.Sprintf(\"[%s%s]\", p.Asset, p.Amount.String())\n"}}, Expect: "R09h:"},
+		Mutant{Property: "C09", Name: "emit-loop-key-differs-from-registration-key", File: nums, Old: "\t\tm := fmt.Sprintf(\"[%s %s]\", p.Amount.String(), p.Asset)\n", New: "\t\tm := fmt.Sprintf(\"[%s  %s]\", p.Amount.String(), p.Asset)\n", Expect: "R09e:TxToScriptData:send"},
+	)
+}
